@@ -125,7 +125,18 @@ type closePlan struct {
 	delay time.Duration // after that instant
 }
 
+// sacPlan is one sacrificial bare Noise session of the prelude (Noise-based layers): A writes one frame of size
+// bytes, B reads first bytes of it (so that the rest of the decrypted frame stays queued inside the session), then B
+// closes the session while that plaintext is queued and carries out ops on the closed session.
+type sacPlan struct {
+	size  int   // plaintext of the single frame (2..65519)
+	first int   // size of B's first read (< size)
+	ops   []int // after the first Close: 0 = Close again, 1 = Read with a small buffer, 2 = Read until error (drains the queue)
+}
+
 type plan struct {
+	sac      []sacPlan
+	ewd      [2]bool // raw endpoint A / B returns the last bytes of the stream together with io.EOF in one Read call
 	pclose   closePlan
 	layer    int
 	stratum  int
@@ -141,6 +152,10 @@ func (p *plan) describe() []string {
 	var out []string
 	out = append(out, fmt.Sprintf("layer=%s stratum=%s link=%s streams=%d adversary=[%s] stall=%+v peer-close=%+v latencies=%v",
 		layerName[p.layer], stratumName[p.stratum], modeName(p.mode), p.nstreams, p.adv, p.stall, p.pclose, p.lat))
+	out = append(out, fmt.Sprintf("  raw endpoints return (n>0, io.EOF) for the last bytes: A=%v B=%v", p.ewd[0], p.ewd[1]))
+	for i, sp := range p.sac {
+		out = append(out, fmt.Sprintf("  prelude %d: sacrificial Noise session: A writes one %d-byte frame, B reads %d bytes, Close, then ops %v (0=Close 1=Read small 2=Read until error)", i, sp.size, sp.first, sp.ops))
+	}
 	for s := range p.ch {
 		for d := 0; d < 2; d++ {
 			c := &p.ch[s][d]
@@ -212,7 +227,45 @@ func genPlan(g simrt.Gen) *plan {
 		p.pclose.sideB = g.Bool()
 		p.pclose.delay = []time.Duration{0, time.Millisecond, time.Second}[g.Int(3)]
 	}
+	p.ewd[0], p.ewd[1] = g.Chance(1, 3), g.Chance(1, 3)
+	if p.layer == layNoise || p.layer == layMuxNoise || p.layer == layHostNoise {
+		genSac(g, p)
+	}
 	return p
+}
+
+// genSac draws the prelude: 0-3 sacrificial sessions whose frame sizes are taken from the writes of the main phase
+// (so that their buffers fall into the size classes the main phase uses), or small.
+func genSac(g simrt.Gen, p *plan) {
+	var sizes []int
+	for s := range p.ch {
+		for d := 0; d < 2; d++ {
+			for _, w := range p.ch[s][d].writes {
+				if w >= 2 {
+					sizes = append(sizes, w)
+				}
+			}
+		}
+	}
+	for k := g.Weighted(3, 3, 2, 1); k > 0; k-- {
+		var sp sacPlan
+		sp.size = 2 + g.Int(64)
+		if len(sizes) > 0 && g.Chance(3, 4) {
+			sp.size = sizes[g.Int(len(sizes))]
+			if !isConnLayer(p.layer) {
+				sp.size += 12 // a yamux frame = 12-byte header + body
+			}
+		}
+		for sp.size > noiseMaxPlain {
+			sp.size -= noiseMaxPlain // the last Noise frame of a chunked write
+		}
+		if sp.size < 2 {
+			sp.size = 2
+		}
+		sp.first = 1 + g.Int(min(sp.size-1, 64))
+		sp.ops = [][]int{{0}, {2}, {1, 0}, {0, 2}, {1, 2}, {}}[g.Int(6)]
+		p.sac = append(p.sac, sp)
+	}
 }
 
 func genChan(g simrt.Gen, p *plan, small bool, budget *int) chanPlan {
